@@ -9,6 +9,56 @@ import traceback
 from . import common
 
 
+def _kill_children():
+    """terminate every descendant process (coqc, workers) of this check"""
+    import signal
+    me = os.getpid()
+    tree = {}
+    for d in os.listdir("/proc"):
+        if d.isdigit():
+            try:
+                with open(f"/proc/{d}/stat") as f:
+                    ppid = int(f.read().rsplit(")", 1)[1].split()[1])
+                tree.setdefault(ppid, []).append(int(d))
+            except (OSError, ValueError, IndexError):
+                pass
+    todo, kids = [me], []
+    while todo:
+        for c in tree.get(todo.pop(), []):
+            kids.append(c)
+            todo.append(c)
+    for c in kids:
+        try:
+            os.kill(c, signal.SIGKILL)
+        except OSError:
+            pass
+
+
+def _watchdog(rep, limit):
+    """A check that does not come back is not a pass: after `limit` seconds report that the property is no longer shown to
+    hold (the implementation - or a model evaluation - runs without end where the unchanged tree needs minutes) and stop."""
+    import threading
+    import time
+
+    def fire():
+        time.sleep(limit)
+        frames = sys._current_frames()
+        main_id = threading.main_thread().ident
+        stack = "".join(traceback.format_stack(frames[main_id])[-12:]) if main_id in frames else ""
+        rep._defer = False
+        rep.not_shown(f"the check did not finish within {int(limit)} s (it needs minutes on the unchanged tree): a run or an "
+                      "evaluation does not terminate", {"limit_s": limit, "main_thread_stack": stack[-3000:]})
+        fa = getattr(rep, "_finish_args", None) or dict(level="proof", trusted_base=common.STD_TRUSTED, rule="watchdog")
+        try:
+            rep.finish(**fa)
+        finally:
+            sys.stdout.flush()
+            _kill_children()
+            os._exit(1)
+
+    threading.Thread(target=fire, daemon=True).start()
+
+
 def main():
     ap = argparse.ArgumentParser()
     ap.add_argument("pid")
@@ -19,6 +69,7 @@ def main():
     pid = args.pid.upper()
     mod = importlib.import_module(f"harness.{pid.lower()}")
     rep = common.Report(pid, args.tier, seed)
+    _watchdog(rep, float(os.environ.get("VERIF_WATCHDOG_S", "2700" if args.tier == "quick" else "14400")))
     replay = None
     if args.replay:
         replay = json.load(open(args.replay))
